@@ -209,7 +209,9 @@ def trigger_task(fname, key, method, argname, argty, time_of):
     def pre(st, a):
         sim, arg = a["self"], a[argname]
         ed, inner = table(st, sim, key)
-        cs = [("the hook table has an entry for this occasion", st.dict_has(ed, V(("str",), z3.StringVal(key))))]
+        kq = z3.Const("k_pre_reg", OptInt)
+        cs = [("the hook table has an entry for this occasion", st.dict_has(ed, V(("str",), z3.StringVal(key)))),
+              ("closed heap: the bucket lists stored in the hook table are allocated objects", z3.ForAll([kq], z3.Implies(z3.Select(st.dict_dom(inner), kq), st.is_alloc(z3.Select(st.dict_val(inner), kq)))))]
         if "order" in argname and fname.endswith(("before_order",)):
             cs.append(("the order names a registered market", st.dict_has(st.read(sim, "id2market"), st.read(arg, "market_id"))))
         if fname.endswith("before_cancel"):
@@ -235,6 +237,12 @@ def trigger_task(fname, key, method, argname, argty, time_of):
                   z3.And(s1.length(L) == nN + nT,
                          z3.ForAll([i], z3.Implies(z3.And(0 <= i, i < nN), z3.Select(LE, i) == z3.Select(st0.elems(bN, ("ref", "EventHook")), i))),
                          z3.ForAll([i], z3.Implies(z3.And(nN <= i, i < nN + nT), z3.Select(LE, i) == z3.Select(st0.elems(bT, ("ref", "EventHook")), i - nN)))), "post")
+        kk = z3.Const("k_reg", OptInt); ii = z3.Int("i_reg")
+        bk0 = z3.Select(st0.dict_val(inner), kk)
+        s1.oblige("post:C13 dispatching does not modify the hook table: every registered bucket keeps its length and its hooks",
+                  z3.ForAll([kk], z3.Implies(z3.Select(st0.dict_dom(inner), kk),
+                                            z3.And(s1.length(bk0) == st0.length(bk0),
+                                                   z3.ForAll([ii], z3.Implies(z3.And(0 <= ii, ii < st0.length(bk0)), z3.Select(s1.elems(bk0, ("ref", "EventHook")), ii) == z3.Select(st0.elems(bk0, ("ref", "EventHook")), ii)))))), "post")
         calls = [t for t in tmpl if t[0] == "Hooked"]
         if not calls or len(calls) != len(tmpl) or (not is_market and len(calls) != 1):
             s1.oblige(f"trace:each selected hook leads to exactly one call of {method} (got {[t[0] for t in tmpl]})", z3.BoolVal(False), "trace"); return
